@@ -31,6 +31,7 @@ pub fn quick_types() -> Vec<Ty> {
         Ty::strukt(&[("a", Ty::Int)]),
         t_iter(Ty::Str),
         Ty::union([Ty::Tup(vec![Ty::Int, Ty::Int]), Ty::Tup(vec![Ty::Int, Ty::Int, Ty::Int])]),
+        Ty::arr(Ty::union([Ty::Int, Ty::Float])),
     ]
 }
 
@@ -131,6 +132,7 @@ pub const RECIPES: &[Recipe] = &[
     r("[1]", false, 1),
     r("[1, \"a\"]", false, 1),
     r("[1.5]", false, 1),
+    r("[1, 2.5]", false, 1),
     r("[\"a\", \"b\"]", false, 1),
     r("[1, 2][2:]", false, 1),
     r("[1, 2.5][0:1]", false, 2),
@@ -253,7 +255,13 @@ impl Values {
             .filter(|&i| RECIPES[i].rank <= max_rank)
             .filter(|&i| self.make(i).is_some_and(|v| belongs(&v, t)))
             .collect();
-        out.sort_by_key(|&i| (RECIPES[i].rank, i));
+        // values whose own run-time type is exactly t come first (a slot of type [int|float]
+        // is first tried with an array tagged [int|float], not only with narrower ones)
+        let want = crate::ty::normal(t);
+        let native: Vec<bool> = (0..RECIPES.len())
+            .map(|i| out.contains(&i) && self.make(i).is_some_and(|v| crate::ty::normal(&Ty::from_impl(&simplesl::variable::Typed::as_type(&v))) == want))
+            .collect();
+        out.sort_by_key(|&i| (!native[i], RECIPES[i].rank, i));
         out
     }
 }
